@@ -1341,6 +1341,12 @@ PREFIX(_intersect_rect) (region_type_t *dest,
     region.extents.x2 = x + width;
     region.extents.y2 = y + height;
 
+    /* A rectangle without points is the empty region, not a single
+     * rectangle with degenerate extents.
+     */
+    if (!GOOD_RECT (&region.extents))
+	region.data = pixman_region_empty_data;
+
     return PREFIX(_intersect) (dest, source, &region);
 }
 
